@@ -200,7 +200,7 @@ func hangClass(dump string) (sig string) {
 			if strings.Contains(g, "internal/poll.(*FD).Read") || strings.Contains(g, "poll.runtime_pollWait") {
 				readerInRead = true
 			}
-			if inSend || strings.Contains(hdr, "[select") || strings.Contains(hdr, "[chan send") {
+			if inSend || strings.Contains(hdr, "[select") || strings.Contains(hdr, "[chan send") || strings.Contains(hdr, "[chan receive") {
 				senderParked = true
 			}
 		}
